@@ -74,6 +74,8 @@ def const_to_lean(val):
         return ("(QSet.ofList [" + ", ".join("." + QUIRK_CTORS[i] for i in bits) + "])", "QSet")
     if isinstance(val, enum.IntFlag):
         return (str(int(val)), "Flags")
+    if isinstance(val, enum.IntEnum):
+        return (str(int(val)), "Lit") if int(val) >= 0 else (f"({int(val)})", "Int")
     if isinstance(val, enum.Enum):
         cls = type(val).__name__
         if cls not in ENUMS or val.name not in ENUMS[cls][1]:
@@ -143,6 +145,7 @@ class Fn:
         self.aux = []           # auxiliary top-level definitions (loops)
         self.div_sites = []
         self.join_depth = 0
+        self.let_bound = set()
 
     # ---------------------------------------------------------------- expressions
     def truthy(self, e, t):
@@ -179,7 +182,22 @@ class Fn:
             return "none"
         raise NotTranslatable(f"no default value of type {t}")
 
+    def struct_attr(self, e, t, attr):
+        table = eval(t[9:], self.glob)  # noqa: S307
+        if attr == "size":
+            out = "0"
+            for k, st in sorted(table.items(), key=lambda kv: -int(kv[0])):
+                out = f"(if {e} == {int(k)} then {st.size} else {out})"
+            return (out, "Nat")
+        raise NotTranslatable(f"struct attribute {attr}")
+
     def fields(self, e, t, rest):
+        if rest and t.startswith("StructOf:"):
+            r = self.struct_attr(e, t, rest[0])
+            return self.fields(r[0], r[1], rest[1:])
+        return self._fields(e, t, rest)
+
+    def _fields(self, e, t, rest):
         """attribute path `rest` on a value `e` of type `t` (records through the target's record table; an optional
         value is dereferenced with a default for None - AttributeError in Python, named in the trusted base)"""
         if not rest:
@@ -246,6 +264,14 @@ class Fn:
             parts = []
             left = self.expr(node.left, env)
             for op, rn in zip(node.ops, node.comparators):
+                dn = dotted(rn)
+                if isinstance(op, (ast.In, ast.NotIn)) and dn is not None and dn not in env and isinstance(self.glob.get(dn), dict):
+                    keys = sorted(self.glob[dn].keys(), key=lambda x: int(x))
+                    alts = [self.compare(ast.Eq(), left, const_to_lean(k)) for k in keys]
+                    c = "(" + " || ".join(alts) + ")" if alts else "false"
+                    parts.append(c if isinstance(op, ast.In) else f"(!{c})")
+                    left = None
+                    continue
                 if isinstance(op, (ast.In, ast.NotIn)) and isinstance(rn, ast.Tuple):
                     alts = [self.compare(ast.Eq(), left, self.expr(x, env)) for x in rn.elts]
                     c = "(" + " || ".join(alts) + ")"
@@ -295,7 +321,87 @@ class Fn:
             return ("[" + ", ".join(p[0] for p in parts) + "]", "List:" + (parts[0][1] if parts else "_"))
         if isinstance(node, ast.Call):
             return self.call(node, env)
+        if isinstance(node, ast.Subscript):
+            return self.subscript(node, env)
         raise NotTranslatable(f"expression {type(node).__name__}")
+
+    def nat_index(self, node, env):
+        e, t = self.expr(node, env)
+        if is_nat_ty(t):
+            return e
+        if t == "Int":
+            return f"(Int.toNat {par(e)})"      # a negative index (counting from the end in Python) is outside the fragment's use
+        raise NotTranslatable(f"index of type {t}")
+
+    def subscript(self, node, env):
+        # struct table:  OPTION_FORMATS[kind]
+        d = dotted(node.value)
+        if d is not None and d not in env and not isinstance(node.slice, ast.Slice):
+            try:
+                val = eval(d, self.glob)  # noqa: S307
+            except Exception:
+                val = None
+            if isinstance(val, dict) and val and all(type(v).__name__ == "Struct" for v in val.values()):
+                k, tk = self.expr(node.slice, env)
+                if not is_int_ty(tk):
+                    raise NotTranslatable("struct table key")
+                return (f"{k}", "StructOf:" + d)
+        base, tb = self.expr(node.value, env)
+        if tb == "Bytes":
+            if isinstance(node.slice, ast.Slice):
+                if node.slice.step is not None:
+                    raise NotTranslatable("slice step")
+                lo = self.nat_index(node.slice.lower, env) if node.slice.lower is not None else "0"
+                if node.slice.upper is None:
+                    return (f"(List.drop {par(lo)} {par(base)})", "Bytes")
+                hi = self.nat_index(node.slice.upper, env)
+                return (f"(List.take ({hi} - {lo}) (List.drop {par(lo)} {par(base)}))", "Bytes")
+            i = self.nat_index(node.slice, env)
+            return (f"(List.getD {par(base)} {par(i)} 0)", "Nat")          # IndexError beyond the end: totalised to 0
+        if tb.startswith("Unpacked:"):
+            # element of struct.unpack(...) :  decided by the table entry of the key
+            if not (isinstance(node.slice, ast.Constant) and isinstance(node.slice.value, int)):
+                raise NotTranslatable("unpacked value index")
+            return self.unpacked_item(base, tb, node.slice.value)
+        if tb.startswith("Tuple:") and isinstance(node.slice, ast.Constant) and isinstance(node.slice.value, int):
+            tys = split_top(tb[6:])
+            i = node.slice.value
+            if 0 <= i < len(tys):
+                return (base + ".2" * i + (".1" if i < len(tys) - 1 else ""), tys[i])
+        raise NotTranslatable(f"subscript of {tb}")
+
+    STRUCT_ITEMS = {"B": 1, "H": 2, "I": 4}
+
+    def struct_layout(self, st):
+        """[(offset, size)] of a big-endian struct of unsigned items"""
+        fmt = st.format
+        if not (fmt == "" or fmt.startswith("!")):
+            raise NotTranslatable(f"struct format {fmt}")
+        out, off = [], 0
+        for ch in fmt[1:]:
+            if ch not in self.STRUCT_ITEMS:
+                raise NotTranslatable(f"struct item {ch}")
+            out.append((off, self.STRUCT_ITEMS[ch]))
+            off += self.STRUCT_ITEMS[ch]
+        return out
+
+    def unpacked_item(self, base, tb, idx):
+        # tb = "Unpacked:<table name>"; base = "(key, bytes)" kept as two lean terms joined by a marker
+        table = eval(tb[9:], self.glob)  # noqa: S307
+        key, data = base.split("\x00")
+        alts = []
+        for k, st in sorted(table.items(), key=lambda kv: int(kv[0])):
+            lay = self.struct_layout(st)
+            if idx < len(lay):
+                off, size = lay[idx]
+                be = {1: f"(List.getD (List.drop {off} {data}) 0 0)", 2: f"(be16 (List.drop {off} {data}))", 4: f"(be32 (List.drop {off} {data}))"}[size]
+                alts.append((int(k), be))
+        if not alts:
+            raise NotTranslatable("unpacked item beyond every format")
+        e = "0"
+        for k, be in reversed(alts):
+            e = f"(if {key} == {k} then {be} else {e})"
+        return (e, "Nat")
 
     def expr_list_hint(self, node, env, want):
         """a list-valued expression whose literal pieces are converted to the hinted element type"""
@@ -552,6 +658,13 @@ class Fn:
                 return (f"(firstHit {it} (fun {v} => {c}) (fun {v} => {body}) {par(dflt)})", t)
         if fname in self.t.get("calls", {}):
             return self.t["calls"][fname](self, args, kw, env)
+        if fname.endswith(".unpack") and len(args) == 1 and not kw:
+            recv = fname[:-7]
+            if recv in env and env[recv] is not None and env[recv][1].startswith("StructOf:"):
+                data, td = self.expr(args[0], env)
+                if td != "Bytes":
+                    raise NotTranslatable("unpack of a non-bytes value")
+                return (env[recv][0] + "\x00" + par(data), "Unpacked:" + env[recv][1][9:])
         inl = self.resolve_callee(fname)
         if inl is not None:
             return self.inline_call(fname, inl, args, kw, env)
@@ -719,12 +832,24 @@ class Fn:
             self.helpers[s.name] = s
             return nxt(env, ind)
         if isinstance(s, (ast.Assign, ast.AnnAssign, ast.AugAssign)):
+            if isinstance(s, ast.Assign) and len(s.targets) > 1:
+                if not all(isinstance(x, ast.Name) for x in s.targets):
+                    raise NotTranslatable("chained assignment to non-names")
+                # a = b = c = v   is   (c = v; b = v; a = v) for a side-effect free v
+                stmts2 = [ast.Assign(targets=[x], value=s.value) for x in s.targets]
+                return self.block(stmts2 + list(rest), env, cont, ind)
             if isinstance(s, ast.Assign):
-                if len(s.targets) != 1:
-                    raise NotTranslatable("multiple assignment")
                 tgt, val = s.targets[0], s.value
                 if isinstance(tgt, ast.Tuple) and all(isinstance(x, ast.Name) for x in tgt.elts):
                     e, t = self.expr(val, env)
+                    if t.startswith("Unpacked:"):
+                        env2 = dict(env)
+                        out = ""
+                        for i, x in enumerate(tgt.elts):
+                            ie, it = self.unpacked_item(e, t, i)
+                            out += f"{pad}let {self.lean_name(x.id)} := {ie}\n"
+                            env2[x.id] = (self.lean_name(x.id), it)
+                        return out + nxt(env2, ind)
                     if not t.startswith("Tuple:") or len(split_top(t[6:])) != len(tgt.elts):
                         raise NotTranslatable("unpacking a non-tuple")
                     tv = f"u{ind}_{len(rest)}"
@@ -771,10 +896,21 @@ class Fn:
                 t = self.t.get("opt_types", {}).get(name, t)
             if isinstance(s, ast.AnnAssign) and t == "List:_":
                 t = self.t.get("list_types", {}).get(name, t)
+            if t.startswith(("Unpacked:", "StructOf:")):
+                env2 = dict(env)
+                env2[name] = (e, t)
+                return nxt(env2, ind)
+            want = self.t.get("var_types", {}).get(name)
+            if want and want != t:
+                e = self.coerce_val(e, t, want)
+                t = want
+            if t == "Lit":
+                t = "Nat"
             lname = self.lean_name(name)
             env2 = dict(env)
             env2[name] = (lname, t)
-            ann = f" : {self.lean_ty(t)}" if t.startswith(("List:", "Opt:")) and not t.endswith(":_") else ""
+            self.let_bound.add(name)
+            ann = f" : {self.lean_ty(t)}" if (t.startswith(("List:", "Opt:")) and not t.endswith(":_")) or t in ("Int", "Nat") else ""
             return f"{pad}let {lname}{ann} := {e}\n" + nxt(env2, ind)
         if isinstance(s, ast.Expr) and isinstance(s.value, ast.Call):
             c = s.value
@@ -832,6 +968,8 @@ class Fn:
             return self.if_stmt(s, rest, env, cont, ind)
         if isinstance(s, ast.For):
             return self.for_loop(s, rest, env, cont, ind)
+        if isinstance(s, ast.While):
+            return self.while_loop(s, rest, env, cont, ind)
         raise NotTranslatable(f"statement {type(s).__name__}")
 
 
@@ -873,10 +1011,12 @@ class Fn:
         def visit(sts, local_helpers):
             for st in sts:
                 if isinstance(st, (ast.Assign, ast.AugAssign, ast.AnnAssign)):
-                    tg = st.targets[0] if isinstance(st, ast.Assign) else st.target
-                    d = dotted(tg)
-                    if d and d not in out:
-                        out.append(d)
+                    tgs = st.targets if isinstance(st, ast.Assign) else [st.target]
+                    for tg in tgs:
+                        for x in (tg.elts if isinstance(tg, ast.Tuple) else [tg]):
+                            d = dotted(x)
+                            if d and d not in out:
+                                out.append(d)
                 elif isinstance(st, ast.If):
                     visit(st.body, local_helpers)
                     visit(st.orelse, local_helpers)
@@ -891,8 +1031,10 @@ class Fn:
                         for v in list(out):
                             if v in params and v not in before:
                                 out.remove(v)
-                elif isinstance(st, (ast.For, ast.While)):
-                    raise NotTranslatable("loop inside a joined conditional")
+                elif isinstance(st, ast.While):
+                    visit(st.body, local_helpers)
+                elif isinstance(st, ast.For):
+                    raise NotTranslatable("for loop inside a joined conditional")
         visit(stmts, None)
         return out
 
@@ -929,6 +1071,19 @@ class Fn:
             return as_int(e, t)
         if want == "Nat" and is_nat_ty(t):
             return e
+        if want == "Bool":
+            return self.truthy(e, t)
+        raise NotTranslatable(f"cannot convert {t} to {want}")
+
+    def coerce_val(self, e, t, want):
+        if t == want:
+            return e
+        if want == "Int" and is_int_ty(t):
+            return as_int(e, t)
+        if want == "Nat" and is_nat_ty(t):
+            return e
+        if want == "Nat" and t == "Int":
+            return f"(Int.toNat {par(e)})"
         if want == "Bool":
             return self.truthy(e, t)
         raise NotTranslatable(f"cannot convert {t} to {want}")
@@ -1019,7 +1174,7 @@ class Fn:
         one = names[0] if len(vs) == 1 else jv
         if not exits:
             return (f"{pad}let {one} : {vty} :=\n{pad}  if {c} then\n{a}\n{pad}  else\n{b}\n" + unpack(ind) + nxt(env2, ind))
-        rty = self.t["lean_ret"]
+        rty = getattr(self, "cur_ret", None) or self.t["lean_ret"]
         return (f"{pad}Sum.elim (fun r => {self.wrap_ret('r')}) (fun ({one} : {vty}) =>\n" + unpack(ind + 1) + nxt(env2, ind + 1) + ")\n"
                 f"{pad}  ((if {c} then\n{a}\n{pad}  else\n{b}) : Sum ({rty}) ({vty}))")
 
@@ -1112,7 +1267,7 @@ class Fn:
             if isinstance(n, (ast.Break, ast.While, ast.For)) and n is not s:
                 raise NotTranslatable("break / nested loop")
         aux = f"{self.t['lean']}_loop{len(self.aux)}"
-        params = self.t["params"]
+        params = list(self.t["params"]) + self.outer_locals(env, assigned)
         psig = " ".join(f"({p} : {ty})" for p, ty in params)
         pnames = " ".join(p for p, _ in params)
         carried = [(self.lean_name(v), env[v][1]) for v in assigned]
@@ -1134,18 +1289,98 @@ class Fn:
                 env_c[n] = (x + ".2" * i + (".1" if i < len(tys) - 1 else ""), ty)
 
         def again(env3, ind3):
-            return "  " * ind3 + f"{aux} {pnames} xs " + " ".join(par(env3[v][0]) for v in assigned)
+            return "  " * ind3 + self.wrap_ret(f"({aux} {pnames} xs " + " ".join(par(env3[v][0]) for v in assigned) + ")")
 
         saved_cont = self.loop_cont if hasattr(self, "loop_cont") else None
-        self.loop_cont = again
+        saved_depth, saved_ret = self.join_depth, getattr(self, "cur_ret", None)
+        self.loop_cont, self.join_depth, self.cur_ret = again, 0, None
         cons_case = self.block(list(s.body), env_c, again, 2)
-        self.loop_cont = saved_cont
+        self.loop_cont, self.join_depth, self.cur_ret = saved_cont, saved_depth, saved_ret
         cs = " ".join(f"({n} : {lean_ty(t)})" for n, t in carried)
         self.aux.append(
             f"def {aux} {psig} : List {par(lean_ty(elt))} → " + "".join(f"{par(lean_ty(t))} → " for _, t in carried) + f"{lean_ty(self.t['ret'])}\n"
             f"  | []" + "".join(", " + n for n, _ in carried) + " =>\n" + nil_case + "\n"
             f"  | {x} :: xs" + "".join(", " + n for n, _ in carried) + " =>\n" + cons_case + "\n")
         return pad + f"{aux} {pnames} {par(it)} " + " ".join(par(env[v][0]) for v in assigned)
+
+    def outer_locals(self, env, carried):
+        """let-bound variables of the enclosing scope that an auxiliary loop definition has to receive as parameters"""
+        out = []
+        for v in sorted(self.let_bound):
+            if v in env and env[v] is not None and v not in carried and env[v][0] == self.lean_name(v):
+                try:
+                    out.append((self.lean_name(v), self.lean_ty(env[v][1])))
+                except NotTranslatable:
+                    pass
+        return out
+
+    def while_loop(self, s, rest, env, cont, ind):
+        """`while c: body` without `return` inside: an auxiliary definition by recursion on a fuel argument that maps the
+        loop-carried variables to their values at loop exit (`none` = fuel exhausted; the bridging theorem has to show the
+        fuel the target supplies is enough)"""
+        pad = "  " * ind
+        if s.orelse:
+            raise NotTranslatable("while-else")
+        for n in ast.walk(ast.Module(body=s.body, type_ignores=[])):
+            if isinstance(n, (ast.Return, ast.Raise)):
+                raise NotTranslatable("return / raise inside a while loop")
+        fuel = self.t.get("fuel")
+        if not fuel:
+            raise NotTranslatable("while loop in a target without a fuel bound")
+        carried = [v for v in self.assigned_in(s.body, env) if v in env and env[v] is not None]
+        for v in carried:
+            if env[v][1].endswith(":_"):
+                raise NotTranslatable(f"loop-carried variable {v} of unknown type")
+        names = [self.lean_name(v) for v in carried]
+        tys = [env[v][1] for v in carried]
+        aux = f"{self.t['lean']}_while{len(self.aux)}"
+        self.aux.append(None)                       # reserve the slot: inner loops get later numbers but are emitted before
+        slot = len(self.aux) - 1
+        params = list(self.t["params"]) + self.outer_locals(env, carried)
+        psig = " ".join(f"({p} : {ty})" for p, ty in params)
+        pnames = " ".join(p for p, _ in params)
+        env_in = dict(env)
+        for v, n, ty in zip(carried, names, tys):
+            env_in[v] = (n, ty)
+        tup_ty = " × ".join(par(self.lean_ty(t)) for t in tys) if tys else "Unit"
+
+        def vals(env3):
+            out = []
+            for v, ty in zip(carried, tys):
+                e3, t3 = env3[v]
+                out.append(self.coerce_val(e3, t3, ty))
+            return out
+
+        def again(env3, ind3):
+            return "  " * ind3 + self.wrap_ret(f"({aux} {pnames} fuel " + " ".join(par(x) for x in vals(env3)) + ")")
+
+        def leave(env3, ind3):
+            return "  " * ind3 + self.wrap_ret("(some (" + ", ".join(vals(env3)) + "))" if carried else "(some ())")
+        saved = (getattr(self, "loop_cont", None), getattr(self, "break_cont", None), self.join_depth, getattr(self, "cur_ret", None))
+        self.loop_cont, self.break_cont, self.join_depth, self.cur_ret = again, leave, 0, f"Option ({tup_ty})"
+        try:
+            c = self.cond(s.test, env_in)
+            body = self.block(list(s.body), env_in, again, 3)
+        finally:
+            self.loop_cont, self.break_cont, self.join_depth, self.cur_ret = saved
+        args = " ".join(f"({n} : {self.lean_ty(t)})" for n, t in zip(names, tys))
+        self.aux[slot] = (
+            f"def {aux} {psig} : Nat → " + "".join(f"{par(self.lean_ty(t))} → " for t in tys) + f"Option ({tup_ty})\n"
+            f"  | 0" + "".join(", " + n for n in names) + " => none\n"
+            f"  | fuel + 1" + "".join(", " + n for n in names) + " =>\n"
+            f"    if {c} then\n{body}\n    else\n" + leave(env_in, 3) + "\n")
+        # emitted after any inner loop definitions it calls
+        self.aux.append(self.aux[slot])
+        self.aux[slot] = ""
+        cur = "(" + ", ".join(env[v][0] for v in carried) + ")" if carried else "()"
+        wv = f"w{ind}_{len(rest)}"
+        out = f"{pad}let {wv} : {tup_ty} := Option.getD ({aux} {pnames} {par(fuel)} " + " ".join(par(env[v][0]) for v in carried) + f") {cur}\n"
+        env2 = dict(env)
+        for i, (v, n, ty) in enumerate(zip(carried, names, tys)):
+            proj = wv + ".2" * i + (".1" if i < len(carried) - 1 else "") if len(carried) > 1 else wv
+            out += f"{pad}let {n} := {proj}\n"
+            env2[v] = (n, ty)
+        return out + self.block(rest, env2, cont, ind)
 
     def translate(self):
         f = self.fdef
@@ -1228,7 +1463,7 @@ def translate_target(t):
     body = fn.translate()
     psig = " ".join(f"({p} : {ty})" for p, ty in t["params"])
     rty = t.get("lean_ret") or {"Int": "Int", "Bool": "Bool", "QSet": "QSet"}.get(t["ret"]) or t["lean_ret"]
-    out = "".join(fn.aux)
+    out = "".join(a for a in fn.aux if a)
     out += f"def {t['lean']} {psig} : {rty} :=\n{body}\n"
     return out, sorted(set(fn.div_sites))
 
